@@ -24,7 +24,7 @@ MANIFEST = {
               "type-checked program and compared with the algebraic specification (bit-level truth tables, field wiring, "
               "bijection tables). Nothing about this property depends on runtime quantities."),
     "note": "Trusted: rustc front end and const evaluation; the bit-parallel evaluator; spec/sgr.py for the colour order.",
-    "technique": "static analysis: per-bit truth tables of the bitwise bodies, match-table extraction, field-wiring rules, resolved-callee checks of operator impls",
+    "technique": "static analysis: per-bit truth tables of the bitwise bodies, match-table extraction, field-wiring rules, abstract evaluation of the Style/Effects operator impls on record values",
 }
 
 S = "anstyle::style::Style::"
